@@ -329,6 +329,22 @@ def body(run: Run, replay):
             if len(hist) % 2 == 0 or pending_conv is not None:
                 # reference given as a location (in the units BEFORE cbcheck's own conversion, as documented)
                 uref = np.array(grids[order[0] - 1][0], float) * (LCONV_M2E ** e_before)
+            # hand the matrices over with the b-set NOT in the leading rows (q-set first or interleaved) for most histories: grid blocks and
+            # modal DOF shuffled symmetrically, bseto pointing at the boundary DOF in the wanted order, USET table in matrix order
+            if (len(hist) + len(order) + uexp) % 4 != 0:
+                blocks = [list(range(6 * j_, 6 * j_ + 6)) for j_ in range(nb // 6)] + [[j_] for j_ in range(nb, n)]
+                orderb = rng.permutation(len(blocks))
+                if rng.uniform() < 0.5:
+                    orderb = np.r_[np.arange(nb // 6, len(blocks)), np.arange(nb // 6)]     # all modal DOF first, b-set last
+                layout = np.array([x for b_ in orderb for x in blocks[b_]])
+                pos = np.empty(n, int)
+                pos[layout] = np.arange(n)
+                M1 = M1[np.ix_(layout, layout)]
+                K1 = K1[np.ix_(layout, layout)]
+                bseto = pos[bseto]
+                cur_ids = list(uset.index.get_level_values("id")[::6])
+                gorder = np.argsort([pos[6 * j_] for j_ in range(nb // 6)])
+                uset = uset.loc[[cur_ids[j_] for j_ in gorder]]
             snap = [np.array(x, copy=True) for x in (M1, K1, bseto, np.asarray(uref, float), uset.values)]
             out = cb.cbcheck(io.StringIO(), M1, K1, bseto, bseto[:6], uset, uref=uref, conv=pending_conv, rb_norm=True)
             # the call leaves its arguments alone, and the very same call again gives the very same answer
